@@ -203,6 +203,34 @@ func (e *Enc) loopMods(li *loopInfo) *modSet {
 	return ms
 }
 
+// rangeIndexPattern: every store to the cell is the constant -1 or (its own value + 1).
+func rangeIndexPattern(a *ssa.Alloc) bool {
+	for _, r := range *a.Referrers() {
+		st, ok := r.(*ssa.Store)
+		if !ok || st.Addr != a {
+			continue
+		}
+		switch v := st.Val.(type) {
+		case *ssa.Const:
+			if v.Value == nil || v.Int64() != -1 {
+				return false
+			}
+		case *ssa.BinOp:
+			if v.Op != token.ADD {
+				return false
+			}
+			ld, ok := v.X.(*ssa.UnOp)
+			one, ok2 := v.Y.(*ssa.Const)
+			if !ok || !ok2 || ld.X != a || one.Value == nil || one.Int64() != 1 {
+				return false
+			}
+		default:
+			return false
+		}
+	}
+	return true
+}
+
 func mapVHeap(mt *types.Map) string { return "MV:" + sortOf(mt.Key()) + ":" + sortOf(mt.Elem()) }
 func mapPHeap(mt *types.Map) string { return "MP:" + sortOf(mt.Key()) }
 
@@ -245,6 +273,11 @@ func (e *Enc) callMods(c *ssa.CallCommon, ms *modSet) {
 	if ct.ModifiesAll {
 		ms.all = true
 		return
+	}
+	if ct.TracedArg != nil {
+		for _, n := range traceComps {
+			ms.heaps[n] = true
+		}
 	}
 	for _, p := range ct.Modifies {
 		names, err := e.modPathHeaps(ct, c, p)
@@ -487,7 +520,7 @@ func (e *Enc) backEdge(li *loopInfo, st *State) {
 	pr := e.autoProps()
 	if e.c != nil {
 		for _, g := range e.frameGoals(st, e.ownStoreTargets()) {
-			e.oblige("frame", fmt.Sprintf("loop%d.modifies.%s", li.ordinal, g.name), e.c.Props, st.reach, g.goal, g.desc, blockPos(li.header))
+			e.oblige("frame", fmt.Sprintf("loop%d.modifies.%s", li.ordinal, g.name), e.framePropsFor(g.name), st.reach, g.goal, g.desc, blockPos(li.header))
 		}
 	}
 	if li.spec == nil {
@@ -551,12 +584,17 @@ func (e *Enc) havoc(st *State, ms *modSet, tag string) {
 		t := k.Type().(*types.Pointer).Elem()
 		c := e.fresh(tag+"_"+k.Comment, sortOf(t))
 		e.assume(st.reach, e.typeAssume(c, t, st.hwm))
+		if k.Comment == "rangeindex" && rangeIndexPattern(k) {
+			// go/ssa lowers "for i := range slice" to an index cell that starts at -1 and is only incremented
+			e.assume(st.reach, And(Ge(c, I(-1)), Le(c, IStr("72057594037927936"))))
+		}
 		st.cells[k] = c
 	}
 	var names []string
 	if ms.all {
 		for k := range e.compSort {
-			if !e.immutableComp(k) {
+			// the activation trace and the panic flag are local to the activation: no callee changes them
+			if !e.immutableComp(k) && !strings.HasPrefix(k, "X:tr") && k != "X:panicking" && !strings.HasPrefix(k, "X:defer_") && k != "X:protected" {
 				names = append(names, k)
 			}
 		}
@@ -881,6 +919,14 @@ func (e *Enc) unop(st *State, ins *ssa.UnOp) {
 		if v.T.Sort != "" && (x.A == nil || x.A.kind != aCell) {
 			v.T = e.def(ins.Name(), v.T)
 			e.assume(st.reach, e.typeAssume(v.T, t, st.hwm))
+			if iface := astNodeInterface(t); iface != "" && (x.A == nil || x.A.kind != aCell) {
+				// AST well-formedness (closed world): a node-typed field holds nil or one of package ast's node types
+				e.noteAssumption("AST well-formedness: Expr/Stmt/Operator fields hold nil or a node type of package ast")
+				sc := e.specCtx(st, e.pre)
+				if k, err := sc.childrenFormula(true, v.T, iface); err == nil {
+					e.assume(st.reach, k)
+				}
+			}
 		}
 		e.vals[ins] = v
 	case token.NOT:
@@ -1180,6 +1226,19 @@ func (e *Enc) typeAssert(st *State, ins *ssa.TypeAssert) {
 	r := e.def(ins.Name(), v)
 	e.assume(st.reach, e.typeAssume(r, ins.AssertedType, st.hwm))
 	e.vals[ins] = tv(r)
+}
+
+// astNodeInterface: t is one of ast.Expr / ast.Stmt / ast.Operator.
+func astNodeInterface(t types.Type) string {
+	n, ok := t.(*types.Named)
+	if !ok || n.Obj().Pkg() == nil || !isAnkoPkg(n.Obj().Pkg()) || n.Obj().Pkg().Name() != "ast" {
+		return ""
+	}
+	switch n.Obj().Name() {
+	case "Expr", "Stmt", "Operator":
+		return n.Obj().Name()
+	}
+	return ""
 }
 
 func isAstNodePtr(t types.Type) bool {
